@@ -391,7 +391,8 @@ def convert_file_to_utf8(
     # replace_doctype() to extract safe_entities.
 
     if isinstance(file.read(0), str):
-        prefix = file.read(CONVERT_FILE_STR_PREFIX_LEN).encode("utf-8")
+        # (a str may hold lone surrogates, which UTF-8 cannot encode)
+        prefix = file.read(CONVERT_FILE_STR_PREFIX_LEN).encode("utf-8", "replace")
         prefix = convert_to_utf8(http_headers, prefix, result)
         result["encoding"] = "utf-8"
         return StreamFactory(prefix, file, "utf-8")
